@@ -371,6 +371,14 @@ FI_Leaves == <<[p |-> <<"S">>, vals |-> {I(3), Lv(<<I(1)>>)}, extra |-> FALSE],
                [p |-> pSX, vals |-> {I(1)}, extra |-> FALSE],
                [p |-> pA, vals |-> {I(0)}, extra |-> TRUE]>>
 
+\* family "effparams" (C10, C03): an effect whose parameter is read from an option
+FE_Kinds == {"opt", "fnapp", "ds"}
+FE_Paths == {pA}
+FE_Bodies == {"f"}
+FE_Effs == {<<"ep">>, <<"e1", "ep">>}
+FE_Leaves == <<[p |-> pA, vals |-> {I(1)}, extra |-> FALSE],
+               [p |-> <<"EP">>, vals |-> {I(3), I(4)}, extra |-> FALSE]>>
+
 \* family "cases" (C05, C12): case-when with constant and option-dependent, possibly raising predicates
 FCS_Kinds == {"val", "opt", "pred", "case"}
 FCS_Paths == {pA, pB}
